@@ -162,6 +162,8 @@ pub enum Item {
 
 #[derive(Clone, Debug)]
 pub struct HashRec {
+    /// random-oracle instance the call was answered by (see `new_oracle`)
+    pub oracle: u32,
     pub items: Vec<Item>,
     pub raw_len: usize,
     pub digest_var: u32,
@@ -197,6 +199,8 @@ pub struct Arena {
     pub force: Option<bool>,
     /// outcomes to impose on the next decisions, in order (used to replay one call's path on another input)
     pub force_queue: std::collections::VecDeque<bool>,
+    /// current random-oracle instance: ideal-hash axioms relate only calls answered by the same instance
+    pub oracle: u32,
 }
 
 impl Arena {
@@ -220,6 +224,7 @@ impl Arena {
             seed: 0,
             force: None,
             force_queue: Default::default(),
+            oracle: 0,
         }
     }
     pub fn mk(&mut self, n: Node) -> Tid {
@@ -339,6 +344,12 @@ pub fn label_name(id: u32) -> String {
 }
 pub fn set_force(f: Option<bool>) {
     with(|a| a.force = f)
+}
+/// Switch to a fresh random-oracle instance ("rewinding" in a two-transcript argument): hash calls made
+/// from now on are unrelated to earlier calls, even on identical input.  Digests obtained earlier stay
+/// ordinary values.
+pub fn new_oracle() {
+    with(|a| a.oracle += 1)
 }
 /// impose these outcomes on the next decisions
 pub fn force_seq(seq: Vec<bool>) {
@@ -711,9 +722,12 @@ pub fn register_hash(bytes: &[u8]) -> u32 {
     with(|a| {
         let idx = a.hashes.len();
         let sb = shadow_bytes(a, &items);
-        let sh = prf(0x5348_4133, 0, &sb);
+        let sh = prf(0x5348_4133, a.oracle as u64, &sb);
         let dv = a.new_var(format!("D{}", idx), VarKind::Blob, sh, Origin::Digest(idx));
         for j in 0..idx {
+            if a.hashes[j].oracle != a.oracle {
+                continue;
+            }
             let other = a.hashes[j].items.clone();
             let od = a.hashes[j].digest_var;
             let ax = match transcript_eq(a, &items, &other) {
@@ -724,7 +738,8 @@ pub fn register_hash(bytes: &[u8]) -> u32 {
             a.axioms.push((ax, format!("ideal hash D{} vs D{}", idx, j)));
         }
         let label = a.cur_label;
-        a.hashes.push(HashRec { items, raw_len: bytes.len(), digest_var: dv, label });
+        let oracle = a.oracle;
+        a.hashes.push(HashRec { oracle, items, raw_len: bytes.len(), digest_var: dv, label });
         dv
     })
 }
